@@ -271,6 +271,10 @@ func (l *log) Get(offset int64) (message.Message, error) {
 	}
 
 	msg, err := rdr.Get(offset)
+	if err == index.ErrOffsetIndexEmpty && offset == message.OffsetNewest && segmentIndex > 0 {
+		// only the head can be empty, the newest message is in the segment before it
+		return l.readers[segmentIndex-1].Get(offset)
+	}
 	if err == index.ErrOffsetAfterEnd && segmentIndex < len(l.readers)-1 {
 		return msg, index.ErrOffsetNotFound
 	}
